@@ -37,13 +37,42 @@ pub open spec fn want_flags(k: IoFileRedirectKind, noclobber: bool, target_is_re
         IoFileRedirectKind::DuplicateOutput => OpenOptions { write: true, create: true, ..z },
     }
 }
+// ---- paths.  brush never calls chdir: `cd` only changes the shell's own working directory, so a relative path means different
+//  files to std (which resolves it against the PROCESS's directory: Path::is_file, File::open) and to the shell (Shell::absolute_path
+//  / Shell::open_file resolve against the SHELL's directory).
+pub uninterp spec fn fs_regular(abs_path: Seq<char>) -> bool;                  // file system: a regular file exists at this absolute path
+pub uninterp spec fn is_abs(p: Seq<char>) -> bool;
+pub uninterp spec fn resolve(dir: Seq<char>, p: Seq<char>) -> Seq<char>;       // p itself if absolute, otherwise dir joined with p
+pub uninterp spec fn process_cwd() -> Seq<char>;
+pub broadcast axiom fn axiom_resolve_absolute(dir: Seq<char>, p: Seq<char>)
+    requires is_abs(p),
+    ensures #[trigger] resolve(dir, p) == p;
 #[verifier::external_body]
 pub struct PathBuf { _p: u8 }
 impl PathBuf {
-    pub uninterp spec fn is_regular(&self) -> bool;
+    pub uninterp spec fn text(&self) -> Seq<char>;
+    // what std's Path::is_file answers: a relative path is looked up from the process's working directory
+    pub open spec fn is_regular(&self) -> bool { fs_regular(resolve(process_cwd(), self.text())) }
     #[verifier::external_body]
     pub fn is_file(&self) -> (r: bool) ensures r == self.is_regular() { unimplemented!() }
 }
+impl Shell { pub uninterp spec fn cwd(&self) -> Seq<char>; }
+// R14 stubs.  Shell::absolute_path (shell/fs.rs): the path itself if empty or absolute, else working_dir().join(path)
+#[verifier::external_body]
+pub fn shell_absolute_path(shell: &Shell, s: String) -> (r: PathBuf)
+    ensures r.text() == resolve(shell.cwd(), s@), s@.len() > 0 ==> is_abs(r.text())
+{ unimplemented!() }
+#[verifier::external_body]
+pub fn pathbuf_from(s: String) -> (r: PathBuf) ensures r.text() == s@ { unimplemented!() }
+impl OpenFile {
+    pub uninterp spec fn opened_path(&self) -> Seq<char>;      // ghost: the absolute path it was opened from
+    pub uninterp spec fn opened_with(&self) -> OpenOptions;    // ghost: the flags it was opened with
+}
+// Shell::open_file (shell/fs.rs): resolves the path with absolute_path (the shell's directory), then OpenOptions::open
+#[verifier::external_body]
+pub fn shell_open_file(shell: &Shell, options: &OpenOptions, path: &PathBuf, params: &ExecutionParameters) -> (r: Result<OpenFile, error::Error>)
+    ensures r is Ok ==> r->Ok_0.opened_path() == resolve(shell.cwd(), path.text()) && r->Ok_0.opened_with() == *options
+{ unimplemented!() }
 pub struct RuntimeOptions { pub disallow_overwriting_regular_files_via_output_redirection: bool }   // projection (field checked)
 impl Shell {
     pub uninterp spec fn opts(&self) -> RuntimeOptions;
